@@ -160,6 +160,9 @@ func loadProgram(repo, pkgPath, hdir, rtFile, tags string) (*ssa.Program, *ssa.P
 		s := strings.Replace(string(b), "package PKGNAME", "package "+pkgName, 1)
 		overlay[filepath.Join(pkgDir, "zz_verif_rt.go")] = []byte(s)
 	}
+	if err := addExtraOverlays(repo, overlay); err != nil { // -hdir2 (overlay_extra.go)
+		return nil, nil, err
+	}
 	cfg := &packages.Config{
 		Mode:       packages.LoadAllSyntax,
 		Dir:        repo,
